@@ -183,6 +183,25 @@ def handle (args : List String) : String :=
       let prod : List (List QI) := (List.range m).map fun a => upbProductRow (partyVecs.map fun pv => pv.getD a [])
       let ent := flatEntries D (upbComplement prod)
       return ";".intercalate (ent.map QI.toStr)
+  | ["genshifts", k] => Id.run do
+      -- per party, per product vector: (cos, sin) of gsAngle·π/2k
+      let some k := k.toNat? | return "bad-op"
+      if k < 1 || k > 8 then return "bad-op"
+      let c : Nat → Float := fun a => Float.cos (a.toFloat * (piF / (2 * k).toFloat))
+      let s : Nat → Float := fun a => Float.sin (a.toFloat * (piF / (2 * k).toFloat))
+      let ent := (List.range (2 * k - 1)).flatMap fun x => (List.range (2 * k)).flatMap fun i =>
+        let v := gsVec c s k x i; [v.1, v.2]
+      return fListStr ent
+  | ["pyramid"] => Id.run do
+      let c : Nat → Float := fun x => Float.cos (2 * piF * x.toFloat / 5)
+      let s : Nat → Float := fun x => Float.sin (2 * piF * x.toFloat / 5)
+      let h : Float := Float.sqrt (1 + Float.sqrt 5) / 2
+      let scale : Float := 2 / Float.sqrt (5 + Float.sqrt 5)
+      let ent := (List.range 2).flatMap fun p => (List.range 5).flatMap fun a => pyramidVec c s h scale (pyramidIdx p a)
+      return fListStr ent
+  | ["min4x4"] => Id.run do
+      let row (r : Z2Row) : List Float := r.entries.map fun e => e.toFloat / Float.sqrt r.normSq.toFloat
+      return s!"{if min4x4Orthonormal then "1" else "0"} {fListStr ((min4x4A ++ min4x4B).flatMap row)}"
   | ["tetra", n] => Id.run do
       let some n := n.toNat? | return "bad-op"
       if n < 1 || n > 3 then return "bad-op"
@@ -194,11 +213,13 @@ def handle (args : List String) : String :=
   | ["cheb0", d] => Id.run do
       let some d := d.toNat? | return "bad-op"
       if d < 2 || d > 40 then return "bad-op"
-      return fListStr (flatEntries d (chebBasis0 d))
+      return fListStr (flatEntries d (chebBasis0 (Float.sqrt 2) (Float.sqrt d.toFloat)
+        (fun k => Float.cos (piF * (k.toFloat + 0.5) / d.toFloat))))
   | ["cheb1", d] => Id.run do
       let some d := d.toNat? | return "bad-op"
       if d < 2 || d > 40 then return "bad-op"
-      return fListStr (flatEntries d (chebBasis1 d))
+      return fListStr (flatEntries d (chebBasis1 (Float.sqrt 2) (Float.sqrt (d - 1).toFloat)
+        (fun k => Float.cos (piF * (k.toFloat + 0.5) / (d - 1).toFloat)) d))
   | _ => "bad-op"
 
 end Numqi.Driver.C18
